@@ -1150,7 +1150,7 @@ pub fn run(opts: &Opts) -> i32 {
     ev.extra.insert("simulated_time".into(), json!("not applicable: no clock is read by the compiler; logical clock = intercepted syscall sequence"));
     let nviol = violations.len();
     let outcome = harness::conclude(PROP, violations, opts, &harness::verify_in_fresh_process);
-    ev.write(opts, nviol);
+    ev.write(opts, outcome.unlisted as usize, nviol);
     println!(
         "C04 {}: {} worlds, {} simulated operations, {} distinct fault plans, {} violations ({} known), {:.1}s",
         opts.tier.name(),
